@@ -17,6 +17,7 @@ mod cssmap_unit;
 mod rpx_unit;
 mod cssws_unit;
 mod bmc_unit;
+mod groupdet_unit;
 
 pub struct Outcome {
     pub found: bool,
@@ -75,6 +76,8 @@ fn main() {
         ("CSSWS", "run") => cssws_unit::run(&input.unwrap()),
         ("BMC", "search") => bmc_unit::search(),
         ("BMC", "run") => bmc_unit::run(&input.unwrap()),
+        ("GROUPDET", "search") => groupdet_unit::search(),
+        ("GROUPDET", "run") => groupdet_unit::run(&input.unwrap()),
         ("TOTAL", "search") => total_unit::search(),
         ("TOTAL", "run") => total_unit::run(&input.unwrap()),
         _ => {
